@@ -13,7 +13,8 @@ PROP = 'C06'
 NEEDS_JIT = True
 TIMEOUT = {'quick': 1500, 'thorough': 3500}
 RULE = ("families = cycle {F,V,W} x nu_pre=nu_post {1,2,3} x medium "
-        "{isotropic, triaxial 1:2:3} x domain {frequency 1 Hz, Laplace}; "
+        "{isotropic, triaxial 1:2:3} x domain {frequency 1 Hz, Laplace}, "
+        "plus isotropic with homogeneous mu_r = 2 or 0.5 (nu=2); "
         "uniform grids with cubic cells refining a 1600 m cube (h=100 m at 16^3), n in {8,16,32} (+64 for the "
         "nu=2 frequency-domain families; thorough: all to 64, 128 for nu=2, "
         "and non-cubic 2^a x 3*2^b x 5*2^c shapes); rho(n) = max per-cycle "
@@ -41,6 +42,19 @@ def families():
                 for dom in ('f', 's'):
                     out.append({'cycle': cyc, 'nu': nu, 'medium': med,
                                 'domain': dom})
+    return out
+
+
+def families_mu():
+    """Homogeneous isotropic medium with a relative magnetic permeability
+    different from one (still the homogeneous showcase; added after a seeded
+    change that dropped mu_r from the coarse-grid operators was missed)."""
+    out = []
+    for cyc in 'FVW':
+        for med in ('imu2', 'imuh'):
+            for dom in ('f', 's'):
+                out.append({'cycle': cyc, 'nu': 2, 'medium': med,
+                            'domain': dom})
     return out
 
 
@@ -72,6 +86,12 @@ def plan(tier, seed):
             b.append({'id': fam_id(f)+'-nc3', 'family': f,
                       'shapes': [[16, 3, 10], [32, 6, 20], [64, 12, 40]],
                       'base': [16, 3, 10]})
+    for f in families_mu():
+        if tier == 'thorough' or (f['cycle'] == 'F' and f['domain'] == 'f') \
+                or fam_id(f) == 'V2imu2s':
+            ns = [8, 16, 32] + ([64] if tier == 'thorough' else [])
+            b.append({'id': fam_id(f), 'family': f,
+                      'shapes': [[n]*3 for n in ns], 'base': [16]*3})
     if tier == 'thorough':
         for f in families():
             if f['nu'] == 2:
@@ -99,6 +119,9 @@ def solve_one(f, shape, base=None):
     grid = emg3d.TensorMesh(hs, origin=(0, 0, 0))
     if f['medium'] == 'iso':
         model = emg3d.Model(grid, property_x=1.0)
+    elif f['medium'] in ('imu2', 'imuh'):
+        model = emg3d.Model(grid, property_x=1.0,
+                            mu_r=2.0 if f['medium'] == 'imu2' else 0.5)
     else:
         model = emg3d.Model(grid, property_x=1.0, property_y=2.0,
                             property_z=3.0)
@@ -227,7 +250,7 @@ def calibrate():
             key = f"{fam['medium']}{fam['nu']}"
             for v in d.values():
                 assert v['exit'] == 0, (k, v)
-                if v['rho'] > old['measured_max'][key]:
+                if v['rho'] > old['measured_max'].get(key, 0.0):
                     old['measured_max'][key] = v['rho']
                     old['caps'][key] = round(CAP_MARGIN*v['rho'], 5)
             print(k, {s_: round(v['rho'], 4) for s_, v in d.items()})
